@@ -79,6 +79,8 @@ TResult ==
                                      \* C04: the handler, waiting for the next request message, does not see a clean end
                                      \* of a request stream whose client failed without closing it
                                      /\ Cur.hend = "error"
+       \* C13: Receive delivers while a Send on the same stream is blocked; the Send completes once the handler reads
+       [] sc.op = "recv_while_send" -> Cur.recv_ok /\ ~Cur.recv_late /\ Cur.send_ok /\ ~Cur.gave_up
        [] sc.op = "client_init_fail" ->
             /\ Cur.reached = 0 /\ Len(Cur.codes) >= 8
             /\ IF sc.used = "badurl"
